@@ -51,6 +51,7 @@ type (
 )
 
 type Clause struct {
+	Optional bool
 	Kind  string // requires ensures safe assigns pure inline trusted invariant decreases loopdecreases ...
 	Label string
 	Props []string
@@ -62,6 +63,7 @@ type Clause struct {
 }
 
 type Contract struct {
+	FromTemplate bool
 	Key     string // function key (RelString or full String for externs)
 	Pkg     string // package path the file belongs to
 	Extern  bool
@@ -114,6 +116,7 @@ type TypeInv struct {
 }
 
 type SpecFile struct {
+	Templates []*Contract
 	TypeInvs  []*TypeInv
 	Pkg       string
 	Contracts []*Contract
@@ -124,6 +127,7 @@ type SpecFile struct {
 }
 
 type SpecSet struct {
+	Templates []*Contract
 	TypeInvs  map[string][]*TypeInv
 	Files     []*SpecFile
 	ByKey     map[string]*Contract // pkgpath + "::" + key ; externs under "::"+key
@@ -134,7 +138,7 @@ type SpecSet struct {
 }
 
 var clauseKeywords = map[string]bool{
-	"func": true, "extern": true, "lemma": true, "pred": true, "spec": true, "ghost": true, "import": true,
+	"func": true, "extern": true, "lemma": true, "forall-funcs": true, "no-template": true, "except": true, "pred": true, "spec": true, "ghost": true, "import": true,
 	"requires": true, "ensures": true, "safe": true, "assigns": true, "pure": true, "inline": true,
 	"trusted": true, "loop": true, "decreases": true, "props": true, "noinline": true, "callreq": true,
 	"mustcall": true, "callassert": true, "havoc": true, "replay": true, "bounded": true, "nofork": true,
@@ -192,6 +196,7 @@ func loadSpecs(root string) (*SpecSet, error) {
 			ss.Preds[n] = p
 		}
 		ss.Ghosts = append(ss.Ghosts, sf.Ghosts...)
+		ss.Templates = append(ss.Templates, sf.Templates...)
 		for _, ti := range sf.TypeInvs {
 			ss.TypeInvs[ti.Type] = append(ss.TypeInvs[ti.Type], ti)
 		}
@@ -227,7 +232,7 @@ func parseSpecFile(path, pkg string) (*SpecFile, error) {
 			t = strings.TrimSpace(t[:k])
 		}
 		w := firstWord(t)
-		if clauseKeywords[w] || len(lines) == 0 {
+		if clauseKeywords[strings.TrimSuffix(w, "?")] || len(lines) == 0 {
 			lines = append(lines, ll{t, i + 1})
 		} else {
 			lines[len(lines)-1].text += " " + t
@@ -245,6 +250,10 @@ func parseSpecFile(path, pkg string) (*SpecFile, error) {
 				return nil, fail(fmt.Errorf("import NAME \"path\""))
 			}
 			sf.Imports[parts[0]] = strings.Trim(parts[1], "\"")
+		case "forall-funcs":
+			key, props := splitProps(rest)
+			cur = &Contract{Key: key, Pkg: pkg, File: path, Line: l.line, Props: props}
+			sf.Templates = append(sf.Templates, cur)
 		case "func", "extern", "lemma":
 			key, props := splitProps(rest)
 			cur = &Contract{Key: key, Pkg: pkg, Extern: w == "extern", Lemma: w == "lemma", File: path, Line: l.line, Props: props}
@@ -280,6 +289,11 @@ func parseSpecFile(path, pkg string) (*SpecFile, error) {
 				return nil, fail(fmt.Errorf("clause outside of a func block"))
 			}
 			cl := &Clause{Kind: w}
+			if strings.HasSuffix(w, "?") { // optional clause (templates): skipped where its names do not resolve
+				cl.Kind = strings.TrimSuffix(w, "?")
+				cl.Optional = true
+				w = cl.Kind
+			}
 			// optional [label C07 C08]
 			if strings.HasPrefix(rest, "[") {
 				end := strings.Index(rest, "]")
@@ -309,9 +323,13 @@ func parseSpecFile(path, pkg string) (*SpecFile, error) {
 				if len(parts) < 3 {
 					return nil, fail(fmt.Errorf("loop N (invariant|decreases) expr"))
 				}
-				n, err := strconv.Atoi(parts[0])
-				if err != nil {
-					return nil, fail(err)
+				n := -1 // "*": every loop of the function
+				if parts[0] != "*" {
+					var err error
+					n, err = strconv.Atoi(parts[0])
+					if err != nil {
+						return nil, fail(err)
+					}
 				}
 				cl.Loop = n
 				cl.Kind = "loop-" + parts[1]
